@@ -5,6 +5,8 @@ DC.Model.Layers.Fanout (result + every shard's table): every key-addressed call
 (set/add/get/[]/in/touch/incr/decr/pop/delete/read), the aggregates (len,
 volume, clear, expire, evict, cull, stats, iteration, check, reset) and
 `with fanout.transact()` blocks that commit or raise.
+(1b) the same with JSONDisk shards and list/dict keys (routing goes through the
+Disk subclass's own key encoding); stream writes (read=True) through the shards.
 (2b) policy-none histories whose results are also compared with the ONE Lean
 reference dictionary DC.Spec (theorem frun_refines).
 (3) aggregates over DAMAGED shards (value files deleted/added/resized, counters
@@ -37,7 +39,7 @@ def fan_history(rng, length):
     ops = []
     depth = 0
     for op in h['ops']:
-        if op['m'] not in SCOPE or op.get('read'):
+        if op['m'] not in SCOPE or (op.get('read') and op['m'] not in ('set', 'add')):
             continue
         if type(op.get('k')) is float and op['k'] == int(op['k']):
             # numerically equal int/float keys are routed apart (known finding D11, probed separately)
@@ -53,6 +55,60 @@ def fan_history(rng, length):
     h['ops'] = ops
     h['state_every'] = 5
     return h
+
+
+JSON_KEYS = ['a', 'b', 7, -3, 2.5, [1, 'x'], (1, 'x'), [0, 'x'], {'a': 1}, {'b': [1, 2]}, None, True, 'é', [[1], [2]]]
+JSON_VALS = [1, 'v', [1, 2], {'k': 'v'}, None, 2.5, 'long' * 20, list(range(30))]
+
+
+def json_fan_history(rng, length):
+    """a FanoutCache whose shards use JSONDisk: the key is identified by its JSON text, so a tuple and
+    the equal list are one key; equal keys must land in one shard (route ops) and be found"""
+    cfg = {'shards': rng.choice([2, 3, 8, 13]), 'mfs': rng.choice([8, 32768]), 'disk': 'json', 'policy': 'lrs', 'cull': 10,
+           'stats': 0, 'proto': 5, 'limN': 2 ** 30, 'limD': 1}
+    ops = []
+    now = 1000
+    for _ in range(length):
+        now += rng.choice([0, 1])
+        m = rng.choices(['set', 'get', 'contains', 'delete', 'pop', 'add', 'route', 'len', 'iter'], [6, 6, 2, 2, 1, 2, 4, 1, 1])[0]
+        op = {'m': m, 'now': now}
+        if m not in ('len', 'iter'):
+            op['k'] = rng.choice(JSON_KEYS)
+        if m in ('set', 'add'):
+            op.update(v=rng.choice(JSON_VALS), ttl=None, tag=None)
+        if m in ('get', 'pop'):
+            op.update(et=0, tg=0)
+        ops.append(op)
+    return {'cls': 'fanout', 'cfg': cfg, 'ops': ops, 'state_every': 5}
+
+
+def json_acceptor(hist, io):
+    """equal keys (same JSON text) are one entry and one shard"""
+    import json
+    store = {}
+    routes = {}
+    for op, res in base.results_of(hist, io):
+        m = op['m']
+        if 'k' not in op:
+            continue
+        kk = json.dumps(op['k'])
+        if m == 'route':
+            if kk in routes and routes[kk] != res:
+                return 'two spellings of the key %s are routed to different shards (%s, %s)' % (kk, routes[kk], res)
+            routes[kk] = res
+        elif m == 'set':
+            store[kk] = True
+        elif m == 'add':
+            store.setdefault(kk, True)
+        elif m in ('delete', 'pop'):
+            store.pop(kk, None)
+        elif m == 'contains':
+            if res != ('T' if kk in store else 'F'):
+                return 'membership of the key %s is %s, but it was %s' % (kk, res, 'stored' if kk in store else 'not stored / removed')
+        elif m == 'get':
+            if (res == 'D') != (kk not in store):
+                return 'get of the key %s returned %s, but it was %s' % (kk, res[:30], 'stored' if kk in store else 'not stored / removed')
+    return None
 
 
 def acceptor(hist, io):
@@ -283,6 +339,10 @@ def run(tier, seed, rng, known, replay):
                                       'ops': base.tag(h['ops'][:b['op_index'] + 1]), 'line': b['line'], 'impl': b['impl'], 'spec': b['spec'],
                                       'acceptor': what, 'spec_part': 'DC.Spec.step; refinement theorem DC.Fanout.frun_refines'},
                            'found_input': True, 'what': 'property violated on the implementation: ' + what})
+    # shards with JSONDisk: equal keys (one JSON text) in one shard
+    jhists = [json_fan_history(rng, rng.choice([15, 40])) for _ in range(60 if tier == 'quick' else 800)]
+    rj = base.check_histories('C13', jhists, ('result', 'state'), acceptor=json_acceptor, known=known, runner=layers.layer_chunk)
+    violations += list(rj['violations'])
     n_agg = 40 if tier == 'quick' else 600
     for s_ in [rng.getrandbits(40) for _ in range(n_agg)]:
         v = aggregate_probe(s_)
